@@ -31,7 +31,7 @@ m = {
         "guard": "akd_verif",
         "enable": "RUSTFLAGS='--cfg akd_verif' (set in harness/.cargo/config.toml; the harness crate path-depends on /repo/akd and /repo/akd_core)",
         "baseline_off_cmd": "cd /repo && cargo nextest run --workspace --no-fail-fast --tool-config-file pb:/w/lib/nextest.toml --profile pb --test-threads 8 --offline || cargo test --workspace --no-fail-fast --offline",
-        "source_commits": ["e2e261a"],
+        "source_commits": ["e2e261a", "6d8f3f2"],
         "add_only": True,
     },
     "engines": [{
